@@ -8,6 +8,7 @@ feasible under the current path condition; the harness function is re-executed o
 path (depth-first), solver frames being kept in sync with the decision stack.
 """
 import builtins
+import os
 import time
 
 import z3
@@ -41,8 +42,91 @@ def bits_for(lo, hi):
     return w
 
 
+# VERIF_CROSS=N: every N-th obligation that z3 discharged (unsat) is also given to the cvc5 binary; cvc5 answering
+# `sat` makes the obligation inconclusive (the two solvers disagree), `unsat` is counted as an agreement
+CROSS_EVERY = int(os.environ.get('VERIF_CROSS', '0') or 0)
+CROSS_BIN = os.environ.get('VERIF_CROSS_BIN', '/usr/bin/cvc5')
+CROSS_TLIMIT_MS = int(os.environ.get('VERIF_CROSS_TLIMIT_MS', '20000'))
+
+
+def _lower_for_smtlib(terms):
+    """rewrite z3-only operators (rotate by a term) into SMT-LIB 2 core bit-vector operators"""
+    memo = {}
+    kinds = (z3.Z3_OP_EXT_ROTATE_LEFT, z3.Z3_OP_EXT_ROTATE_RIGHT)
+
+    def build(t, ch):
+        k = t.decl().kind()
+        if k in kinds:
+            a, b = ch
+            w = a.size()
+            n = z3.URem(b, z3.BitVecVal(w, w))
+            inv = z3.URem(z3.BitVecVal(w, w) - n, z3.BitVecVal(w, w))
+            if k == z3.Z3_OP_EXT_ROTATE_RIGHT:
+                return z3.LShR(a, n) | (a << inv)
+            return (a << n) | z3.LShR(a, inv)
+        if all(c0.eq(c1) for c0, c1 in zip(t.children(), ch)):
+            return t
+        return t.decl()(*ch)
+    out = []
+    for root in terms:
+        stack = [(root, False)]
+        while stack:
+            t, done = stack.pop()
+            i = t.get_id()
+            if i in memo:
+                continue
+            if not z3.is_app(t) or t.num_args() == 0:
+                memo[i] = t
+                continue
+            if done:
+                memo[i] = build(t, [memo[c.get_id()] for c in t.children()])
+            else:
+                stack.append((t, True))
+                for c in t.children():
+                    if c.get_id() not in memo:
+                        stack.append((c, False))
+        out.append(memo[root.get_id()])
+    return out
+
+
+def cross_check(assertions):
+    import subprocess
+    import tempfile
+    s = z3.Solver()
+    s.add(_lower_for_smtlib(assertions))
+    text = '(set-logic QF_ABV)\n' + s.to_smt2()
+    fd, path = tempfile.mkstemp(suffix='.smt2', prefix='symx-cross-')
+    try:
+        with os.fdopen(fd, 'w') as f:
+            f.write(text)
+        try:
+            p = subprocess.run([CROSS_BIN, '--tlimit=%d' % CROSS_TLIMIT_MS, path], capture_output=True, text=True,
+                               timeout=CROSS_TLIMIT_MS / 1000.0 + 10)
+        except (subprocess.TimeoutExpired, OSError):
+            return 'noanswer'
+        out = p.stdout.strip().splitlines()
+        if '(error' in p.stdout or '(error' in p.stderr:
+            if os.environ.get('VERIF_CROSS_DEBUG'):
+                import shutil
+                shutil.copy(path, '/tmp/cross-error.smt2')
+                sys_err = (p.stdout + p.stderr)[:300]
+                print('cross-check error: ' + sys_err)
+            return 'error'
+        if out and out[0] == 'unsat':
+            return 'agree'
+        if out and out[0] == 'sat':
+            return 'disagree'
+        return 'noanswer'
+    finally:
+        try:
+            os.remove(path)
+        except OSError:
+            pass
+
+
 class Ctx:
     def __init__(self, timeout_ms=60000):
+        self.cross = {}
         self.solver = z3.SolverFor('QF_ABV')
         self.solver.set('timeout', timeout_ms)
         self.timeout_ms = timeout_ms
@@ -156,6 +240,12 @@ class Ctx:
             if r == z3.unknown and not quick:
                 r, m = incr()
         self.tsolve += time.time() - t
+        if r == z3.unsat and CROSS_EVERY and self.nsolve % CROSS_EVERY == 0:
+            # second opinion from an independent solver (cvc5) on a sample of the discharged obligations
+            v = cross_check(list(self.solver.assertions()) + list(extra))
+            self.cross[v] = self.cross.get(v, 0) + 1
+            if v == 'disagree':
+                r, m = z3.unknown, None
         if r == z3.unknown and not quick:
             self.nunknown += 1
         return r, m
@@ -307,10 +397,12 @@ class Stats:
         self.solver_s = 0.0
         self.incomplete = None
         self.unknown = 0
+        self.cross = {}
 
     def as_dict(self):
         return dict(paths=self.paths, aborted=self.aborted, queries=self.queries,
-                    solver_s=round(self.solver_s, 3), incomplete=self.incomplete, unknown=self.unknown)
+                    solver_s=round(self.solver_s, 3), incomplete=self.incomplete, unknown=self.unknown,
+                    cross=dict(self.cross))
 
 
 def explore(fn, on_path=None, max_paths=10 ** 9, max_seconds=None):
@@ -319,6 +411,7 @@ def explore(fn, on_path=None, max_paths=10 ** 9, max_seconds=None):
     c = CTX
     c.reset()
     q0, t0 = c.nsolve, c.tsolve
+    c.cross = {}
     st = Stats()
     c.deadline = (time.time() + max_seconds) if max_seconds else None
     try:
@@ -355,6 +448,7 @@ def explore(fn, on_path=None, max_paths=10 ** 9, max_seconds=None):
     st.queries = c.nsolve - q0
     st.solver_s = c.tsolve - t0
     st.unknown = c.nunknown
+    st.cross = dict(c.cross)
     return st
 
 
